@@ -472,7 +472,7 @@ impl SizeSerializer {
 //@@ nowhere
 //@@ param value : &ValS
 //@@ spec
-    ensures r is Ok ==> r->Ok_0 == sz(*value, plain_mode()),       // [C20.size.entry-starts-unmarked] serialized_size hands the value a size serializer with no marker pending, no struct encoding and outside any array -- the state to_vec's fresh byte serializer starts in (unit SERENTRY [C03.ser.fresh-serializer-is-plain]) -- and returns what it answers
+    ensures r is Ok ==> r->Ok_0 == sz(*value, plain_mode()),       // [C20.size.entry-starts-unmarked] serialized_size hands the value a size serializer with no marker pending, no struct encoding and outside any array -- the state to_vec's fresh byte serializer starts in (unit SERENTRY, clause ser.fresh-serializer-is-plain) -- and returns what it answers
 //@@ end
 
 } // verus!
